@@ -140,6 +140,9 @@ def make_eval(exe):
 
 
 def replay_case(case):
+    if case.get("inproc"):
+        from props import _inproc
+        return _inproc.replay(case)
     return make_eval(core.build("rel"))(case, core.Stats())
 
 
@@ -159,15 +162,10 @@ def run(tier, seed):
     n, mt = (900, 300000) if tier == "quick" else (15000, 3000000)
     stats, fails = core.hyp_search(lambda: strategy(mt), make_eval(exe), n, seed)
     extra = {}
-    try:
-        from props import _inproc
-        ip = _inproc.run_target("pbt_prefix", tier, seed)
-        extra["inproc"] = ip["summary"]
-        stats.evaluations += ip["evaluations"]
-        stats.nontrivial |= ip["nontrivial"]
-        fails = fails + ip["fails"]
-    except ImportError:
-        pass
+    # in-process: generate_prefix_code() on synthetic symbol arrays (alphabets 3-258, uniform / geometric / Fibonacci /
+    # sparse weights, 1-6 tables) against a package-merge optimum in C++ (self-tested against brute force)
+    from props import _inproc
+    _inproc.add(stats, fails, "prefix", seed, 6000 if tier == "quick" else 600000)
     oc = core.conclude(PID, fails, replay_case)
     core.write_evidence(PID, tier, seed, "exploration", stats, RULE, time.time() - t0,
                         violations=len(oc.violations), extra=extra,
